@@ -184,6 +184,29 @@ func VerifH_C12_Routing() {
 	vrt.Reach("routing/" + method)
 }
 
+// VerifH_C12_WellKnown: the first step of the discovery chain: a request of
+// any method to the well-known URI is answered, under every mount prefix,
+// with a redirect that keeps the method and the body (307 or 308: the
+// client's PROPFIND must arrive as a PROPFIND) to exactly the backend's
+// principal path; no backend operation other than the principal lookup runs.
+func VerifH_C12_WellKnown() {
+	internal.VerifResetWire()
+	configured := verifPrefixes[vrt.Choose("prefix", len(verifPrefixes))]
+	prefix := strings.TrimSuffix(configured, "/")
+	principal := prefix + "/" + vrt.StrNIn("user", 2, 'a', 'z') + "/"
+	be := &verifBackend{principal: principal, homeSet: principal + "h/"}
+	h := &Handler{Backend: be, Prefix: configured}
+	methods := []string{"PROPFIND", "GET", "OPTIONS", "REPORT", "PUT"}
+	method := methods[vrt.Choose("method", len(methods))]
+	r := verifRequest(method, "/.well-known/carddav", http.Header{}, nil, false, "", true)
+	rec := newVerifRecorder()
+	h.ServeHTTP(rec, r)
+	vrt.Assert(rec.code == 307 || rec.code == 308, "well-known URI: answered with a redirect that preserves the method (307 or 308)")
+	vrt.Assert(rec.hdr.Get("Location") == principal, "well-known URI: redirects to exactly the backend's principal path")
+	vrt.Assert(len(be.calls) == 0 && be.mutations == 0, "well-known URI: no backend operation is carried out")
+	vrt.Reach("well-known/" + method)
+}
+
 func verifServedMS(rec *verifRecorder) *internal.MultiStatus {
 	if vrt.Symbolic() {
 		return internal.VerifServed
